@@ -1,6 +1,6 @@
 use std::{collections::hash_map::Entry, fmt};
 
-use ahash::AHashMap as HashMap;
+use std::collections::HashMap; // VERIF MODEL: std map instead of ahash (never executed by a harness)
 
 #[cfg(feature = "parallel")]
 use crate::dispatch::dispatcher::ThreadPoolWrapper;
